@@ -32,6 +32,11 @@ ASSUMPTIONS = {
 }
 
 
+EXTRA = {}
+REPLAY = {}
+NO_GENERIC = set()
+
+
 def corpus_cases(prop):
     out = []
     for f in sorted(glob.glob(os.path.join(VERIF, "corpus", prop, "*.json"))):
@@ -138,6 +143,106 @@ def replay(prop, goit, j, steps, sbase):
     return out
 
 
-EXTRA = {}
-REPLAY = {}
-NO_GENERIC = set()
+
+
+# ------------------------------------------------------------------ C12: every quarter-hour zone
+C12_NAMES = [b"Al Bo", "Zoë Émile".encode(), b"x", b"a > b", b"Name With  Two Spaces", "名前".encode(),
+             b"O'Neil (dev) [x] {y} = z", b"trailing dot.", b"12345"]
+C12_EMAILS = [b"a@b.cc", b"first.last+tag@sub.example.org", b"e@x.yy", b"u_n-d.er@a1.b2.museum", b"X@Y.ZZ"]
+C12_MSGS = [b"one line", b"subject\n\nbody line one\nbody: with colon\n\nlast", "nön-äscii ✓".encode(),
+            b"x" * 3000, b"trailing\n", b"", b"a\n\n\nb", b"tab\there: and colon"]
+
+
+def c12_case(args):
+    goit, q, seed, sbase = args
+    import core
+    import random as _r
+    from hist import Edit, c_add, c_cat_file, c_commit, c_config, c_init, c_log
+    rng = _r.Random(seed * 1000 + q)
+    off = q * 900
+    d = os.path.join(sbase, "tz")
+    os.makedirs(d, exist_ok=True)
+    tzf = os.path.join(d, "q%+d.tzif" % q)
+    core.make_tzif(tzf, off)
+    name, email = rng.choice(C12_NAMES), rng.choice(C12_EMAILS)
+    steps = [c_init(), c_config(b"user.name", name), c_config(b"user.email", email),
+             Edit("write", b"f", b"1"), c_add([b"f"]), c_commit(rng.choice(C12_MSGS)),
+             Edit("write", b"g/h", b"2"), c_add([b"."]), c_commit(rng.choice(C12_MSGS)), c_log(3)]
+    try:
+        recs = runner.run_steps(goit, steps, len(steps), tz=tzf, tz_offset=off, base=sbase)
+        j = runner.judge("C12", recs)
+        # the commit objects can be read back by Goit itself
+        extra = []
+        tips = [r for r in recs if r.step.kind == "cmd" and r.step.name == "commit" and r.res.cls == "ok"]
+        if len(tips) != 2:
+            extra.append((5, "commit failed under UTC offset %+d s: %r" % (off, [r.res.err[-120:] for r in recs if r.res is not None and r.res.cls != "ok"][:1])))
+        return {"q": q, "off": off, "oracle": j["oracle"] + extra, "corr": j["corr"], "corr_other": j["corr_other"],
+                "steps": [runner.step_to_json(s) for s in steps], "n": len(recs), "tz": tzf,
+                "name": name.decode("utf-8", "replace"), "email": email.decode()}
+    except Exception:
+        import traceback
+        return {"q": q, "off": off, "oracle": [(-1, "harness error " + traceback.format_exc()[-300:])], "corr": [],
+                "corr_other": None, "steps": [], "n": 0, "tz": tzf, "name": "", "email": ""}
+
+
+def extra_c12(prop, goit, sbase, seed, tier, model_ok, stats):
+    qs = list(range(-48, 57))
+    reps = 1 if tier == "quick" else 6
+    jobs = [(goit, q, seed + k, sbase) for k in range(reps) for q in qs]
+    with _pool() as pool:
+        results = pool.map(c12_case, jobs, chunksize=2)
+    offs = collections.Counter()
+    for res in results:
+        stats["evaluations"] += 1
+        stats["steps"] += res["n"]
+        offs["%+05d" % (res["off"] // 36)] += 1
+        if not res["oracle"] and not res["corr"]:
+            stats["distinct_nontrivial"] += 1
+            if model_ok and not res["corr_other"]:
+                stats["validated"] += 1
+        steps = [step_from_json(s) for s in res["steps"]]
+        for i, msg in res["oracle"]:
+            stats["oracle_failures"].append({"seed": seed, "steps": steps, "i": i, "msg": msg, "shrinkable": False,
+                                             "step_name": "commit",
+                                             "extra": {"tz_offset": res["off"], "kind": "tz", "name": res["name"], "email": res["email"]}})
+        for i, dd in res["corr"]:
+            stats["corr_failures"].append({"seed": seed, "steps": steps, "i": i, "diffs": dd, "step_name": "commit"})
+    stats["distribution"]["tz_quarter_hours"] = collections.Counter({"distinct offsets": len(set(qs)), "runs": len(jobs)})
+    stats["samples"].append({"tz_offsets_seconds": [q * 900 for q in qs[:6]] + ["..."] + [qs[-1] * 900]})
+
+
+def replay_tz(prop, goit, j, steps, sbase):
+    import core
+    off = j["extra"]["tz_offset"]
+    tzf = os.path.join(sbase, "replay.tzif")
+    core.make_tzif(tzf, off)
+    recs, jd = runner.replay_steps(goit, prop, steps, tz=tzf, tz_offset=off, base=sbase)
+    out = ["step %d: %s" % (i, m) for i, m in jd["oracle"]]
+    out += ["step %d: model/implementation differ: %s" % (i, "; ".join(d)) for i, d in jd["corr"]]
+    if not any(r.step.kind == "cmd" and r.step.name == "commit" and r.res.cls == "ok" for r in recs):
+        out.append("commit failed under UTC offset %+d" % off)
+    return out
+
+
+EXTRA["C12"] = extra_c12
+REPLAY["tz"] = replay_tz
+
+
+# ------------------------------------------------------------------ C19: damaged files
+def extra_c19(prop, goit, sbase, seed, tier, model_ok, stats):
+    import c19
+    c19.run_c19(goit, sbase, seed, tier, model_ok, stats)
+    stats["rule"] = ("a repository built by goit; each object file (blob, tree, commit), the index, HEAD, a branch file, "
+                     "the config and logs/HEAD is damaged in turn (truncations, byte substitutions, deletions, appends, "
+                     "swapped object files, crafted payloads stored under their own SHA-1) and read-only commands are "
+                     "run under an address-space limit and a time-out; the verdict of each decoder is compared with "
+                     "the Coq model's decoder on the same bytes; every mutation is distinct")
+
+
+def replay_c19(prop, goit, j, steps, sbase):
+    return ["stored C19 finding (re-run the check to re-derive it): %s" % j.get("message")]
+
+
+EXTRA["C19"] = extra_c19
+REPLAY["c19"] = replay_c19
+NO_GENERIC.add("C19")
